@@ -159,6 +159,29 @@ class Body:
         ds = ";\n   ".join(f"mkdecl {k} {q(n)} {e.coq()}" for k, n, e in self.decls)
         return f"(mkbody [{ps}]\n  [{ds}]\n  {self.ret.coq()})"
 
+    def undeclared_context(self):
+        """for a SUB-ROUTINE body: `hi` / `pkt` mentioned before (or without) being declared, unless they are parameters"""
+        def vars_of(x, acc):
+            if x.kind == "var":
+                acc.add(x.a)
+            elif x.kind == "app":
+                for y in x.b:
+                    vars_of(y, acc)
+            elif x.kind == "ccast":
+                vars_of(x.b, acc)
+            elif x.kind == "arrow":
+                acc.add(x.a)
+            return acc
+        declared = {n for n, _ in self.params}
+        missing = []
+        for _, name, e in self.decls + [(None, None, self.ret)]:
+            for v in vars_of(e, set()):
+                if v in ("hi", "pkt") and v not in declared and v not in missing:
+                    missing.append(v)
+            if name:
+                declared.add(name)
+        return missing
+
     def heads(self):
         acc = set()
         for _, _, e in self.decls:
